@@ -10,6 +10,7 @@ import multiprocessing.context
 import multiprocessing.managers
 import multiprocessing.pool
 import multiprocessing.queues
+import multiprocessing.reduction
 import multiprocessing.synchronize
 import multiprocessing.util
 import os
@@ -22,6 +23,30 @@ from ..threading import Thread
 from .remote_exception import RemoteException
 
 logger = logging.getLogger(__name__)
+
+
+class _QueueHandler(logging.handlers.QueueHandler):
+    # The handler that forwards the log records of a child process to its parent.
+    #
+    # The standard ``prepare`` makes ``msg``, ``args`` and ``exc_info`` transportable.
+    # Attributes passed in by ``extra=...`` are left as they are; if one of them
+    # can not be pickled, the queue's feeder thread fails on the record (and prints
+    # a traceback to stderr) and the parent never sees it. Send the ``repr`` of such
+    # an attribute instead.
+
+    _standard_attrs = frozenset(
+        logging.LogRecord('', 0, '', 0, '', (), None).__dict__
+    ) | {'message', 'asctime'}
+
+    def prepare(self, record):
+        record = super().prepare(record)
+        for k, v in list(record.__dict__.items()):
+            if k not in self._standard_attrs:
+                try:
+                    multiprocessing.reduction.ForkingPickler.dumps(v)
+                except Exception:
+                    record.__dict__[k] = repr(v)
+        return record
 
 
 class SpawnProcess(multiprocessing.context.SpawnProcess):
@@ -302,7 +327,7 @@ class SpawnProcess(multiprocessing.context.SpawnProcess):
             # Logging config should happen in the main process/thread.
             root = logging.getLogger()
             root.setLevel(logging.DEBUG)
-            qh = logging.handlers.QueueHandler(logger_queue)
+            qh = _QueueHandler(logger_queue)
             root.addHandler(qh)
             logging.captureWarnings(True)
         else:
